@@ -5,7 +5,7 @@ import itertools
 
 from ..model import AnalysisError
 from ..symex import Symex, Obj, Raised
-from ..terms import T, sym, show, t_pow, expand_products, canon, multiset, multiset_diff, summands, is_num
+from ..terms import T, sym, show, t_pow, t_add, t_mul, expand_products, multiset, multiset_diff, summands, is_num
 
 EXPLANATION = (
     "Every clause is decided by abstract evaluation (sa.symex) of the library function on a finite model and comparison "
@@ -13,7 +13,7 @@ EXPLANATION = (
     "pairwise distinct records (name, spin); a term is a list of objects, each with its index tuple and its table of "
     "allowed spin blocks (or None); get_symbols returns the record of (name, spin); `x.subs(m)` is recorded as the "
     "mapping m; Expr(0, ..) is a zero accumulator whose assumptions/target indices are recorded. "
-    "R15f: integrate_spin on 5 model expressions (18 terms: ERI, deltas, t-amplitudes, an asymmetric block table, "
+    "R15f: integrate_spin on 4 model expressions (18 terms: ERI, deltas, t-amplitudes, an asymmetric block table, "
     "unknown tensors, prefactors, pure numbers) for every target spin string: the returned sum contains, for every term, "
     "exactly one substituted copy per spin assignment of ALL its indices that agrees with the target spins and gives "
     "every object an allowed block (brute force over 2^n assignments) - none missing, none twice, nothing else; "
@@ -24,8 +24,8 @@ EXPLANATION = (
     "spin blocks are kept (the fold over objects has a neutral element). R15c: Obj.expand_antisym_eri for all 16+1 spin "
     "patterns of <pq||rs>, exponents 1, 2, n, both return modes: [d(sp,sr)d(sq,ss)(pr|qs) - d(sp,ss)d(sq,sr)(ps|qr)]^exponent "
     "with bra-ket symmetric Coulomb tensors of the configured name, sym_tensors extended iff a Coulomb tensor was "
-    "produced, non-ERI objects untouched, non-symmetric ERI refused; every produced Coulomb tensor lies in an allowed "
-    "Coulomb block and the expansion is non-zero exactly on the allowed ERI blocks. R15d: Obj.allowed_spin_blocks / "
+    "produced, non-ERI objects untouched, non-symmetric ERI refused; the expansion is non-zero exactly on the allowed ERI "
+    "blocks. R15d: Obj.allowed_spin_blocks / "
     "NormalOrdered.allowed_spin_blocks evaluated for every object kind against the spin-conservation oracle (ERI, "
     "Coulomb, delta, operators, t-amplitudes with 2/4/6 indices, registered and unregistered intermediates, "
     "prefactors). R15e: transform_to_spatial_orbitals with integrate_spin replaced by a model of its result: arguments "
@@ -34,15 +34,17 @@ EXPLANATION = (
     "renamed to the alpha index of the same name, targets all-alpha, a clash with an existing alpha index refused. "
     "R15g: _has_valid_combination on 1728 three-tensor instances against brute force (answer, and on success a "
     "complete consistent assignment left in `variant`). R15h: allowed_spin_blocks(expr, target) on model expressions "
-    "against brute force over all spin assignments.")
+    "(one term, several terms, chains of deltas, the two expressions that need real backtracking) against brute force over "
+    "all spin assignments; RegisteredIntermediate.allowed_spin_blocks = allowed_spin_blocks(definition on the default "
+    "indices, default indices).")
 ASSUMPTIONS = [
-    "models are finite: at most 8 distinct indices per term, objects with up to 6 indices, single-letter index names",
+    "models are finite: at most 12 distinct indices per term, objects with up to 6 indices, single-letter index names",
     "objects that carry the same index twice (e.g. <ij||ij>) are outside the model domain (integrate_spin refuses them, "
     "see the report of the hardening run)",
     "the former package-wide sweeps for shallow-copy aliasing (R15a) and unit-less folds (R15b) outside the spin "
     "integration functions were pattern matches on source spelling and are no longer performed; inside integrate_spin, "
     "allowed_spin_blocks and transform_to_spatial_orbitals their consequences are decided by evaluation",
-    "simplify, Expr.expand, order_substitutions and sympy's subs are taken to be value preserving (C08/C06/C16 decide them)",
+    "simplify, Expr.expand, order_substitutions and sympy's subs are taken to be value preserving (not decided here)",
     "allowed_spin_blocks(expr, ..) is evaluated only for expressions in which every indexed object has known spin "
     "blocks closed under the global spin flip (its documented domain)",
 ]
@@ -165,17 +167,24 @@ class World:
         def ident(sx, a, kw):
             return a[0]
 
+        def add(sx, a, kw):
+            return t_add(*[x.term if isinstance(x, Obj) else x for x in a])
+
+        def mul(sx, a, kw):
+            return t_mul(*[x.term if isinstance(x, Obj) else x for x in a])
+
         def sort_key(sx, a, kw):
             return KEY(a[0]) if isinstance(a[0], Obj) else NotImplemented
 
         return {"get_symbols": get_symbols, "Expr": expr_ctor, "set_target_idx": set_target_idx, "subs": subs,
-                "order_substitutions": ident, "simplify": ident, "sort_idx_canonical": sort_key}
+                "order_substitutions": ident, "simplify": ident, "sort_idx_canonical": sort_key, "Add": add, "Mul": mul}
 
 
 def evaluate(ctx, ref, build, what, extra=None, max_paths=64):
     """[(outcome, world)] of the function on the model arguments built by ``build(W)`` (rebuilt for every path)."""
     worlds = []
-    sx = Symex(ctx.model, inline=lambda q: True, what=what, max_paths=max_paths)
+    sx = Symex(ctx.model, inline=lambda q: True, what=what, max_paths=max_paths,
+               attr_hook=lambda sx, obj, attr, node: False if attr == "is_number" else NotImplemented)
 
     def make():
         W = World()
@@ -329,6 +338,12 @@ def r15f(ctx):
             want_t = tuple(nm + "_" + s for nm, s in zip(target, spins)) if provided else None
             check_accumulators(ctx, "R15f", fn, what, W, accs, {"real": True, "sym_tensors": ("x",)}, want_t, f"{fname} {spins}")
     ctx.floor("R15f", "terms of the integrate_spin model evaluated", n, 90)
+    # informational (outside the decided domain): an object that carries an index twice
+    res = evaluate(ctx, fn, lambda W: dict(expr=W.expr("expr", [W.term("P", [("V", W.ix("ijij"), ERI)], ())], {"real": True}, None),
+                                           target_idx="", target_spin=""), "integrate_spin(<ij||ij>)")
+    if any(o.kind == "raise" for o, _ in res):
+        ctx.note("integrate_spin refuses an object that carries an index twice (model <ij||ij>: the ERI blocks abba/baab assign both "
+                 f"spins to one index and raise {res[0][0].exc} instead of being skipped); not decided here, reported separately")
     # input guards
     fam = _families()["A"][1][:3]
 
@@ -523,11 +538,12 @@ def r15c(ctx):
         def build(W, name="V", bks=1):
             p, q, r, s = W.ix("pqrs", spins or None)
             base = Obj(None, "base")
-            base.attrs.update(name=name, idx=(p, q, r, s), upper=(p, q), lower=(r, s), bra_ket_sym=bks)
+            base.attrs.update(name=name, idx=(p, q, r, s), upper=(p, q), lower=(r, s), bra_ket_sym=bks,
+                              _classes=("AntiSymmetricTensor", "SymbolicTensor"))
             me = Obj(EC + "Obj", "self")
             me.attrs.update(name=name, idx=(p, q, r, s), bra_ket_sym=bks, exponent=exponent, base=base,
                             base_and_exponent=(base, exponent), sympy=t_pow(base.term, exponent),
-                            assumptions={"real": True, "sym_tensors": ("x",), "antisym_tensors": ()}, type_as_str="antisym_tensor")
+                            assumptions={"real": True, "sym_tensors": ("x",), "antisym_tensors": ()})
             W.me = me
             return dict(self=me, return_sympy=ret)
         res = evaluate(ctx, fn, build, "expand_antisym_eri", _tensor_hooks)
@@ -581,10 +597,11 @@ def r15c(ctx):
         def build(W):
             p, q, r, s = W.ix("pqrs")
             base = Obj(None, "base")
-            base.attrs.update(name=name, idx=(p, q, r, s), upper=(p, q), lower=(r, s), bra_ket_sym=bks)
+            base.attrs.update(name=name, idx=(p, q, r, s), upper=(p, q), lower=(r, s), bra_ket_sym=bks,
+                              _classes=("AntiSymmetricTensor", "SymbolicTensor"))
             me = Obj(EC + "Obj", "self")
             me.attrs.update(name=name, idx=(p, q, r, s), bra_ket_sym=bks, exponent=2, base=base, base_and_exponent=(base, 2),
-                            sympy=t_pow(base.term, 2), assumptions={"real": True, "sym_tensors": ("x",)}, type_as_str="antisym_tensor")
+                            sympy=t_pow(base.term, 2), assumptions={"real": True, "sym_tensors": ("x",)})
             return dict(self=me, return_sympy=True)
         return evaluate(ctx, fn, build, "expand_antisym_eri", _tensor_hooks)
     for name in ("f", "v", "t2"):
@@ -655,10 +672,10 @@ def r15d(ctx):
         def build(W):
             ix = W.ix("pqrstu"[:nidx])
             base = Obj(None, "base")
-            base.attrs.update(name=name, idx=ix, _classes=classes)
+            base.attrs.update(name=name, idx=ix, _classes=classes, is_number=(nidx == 0 and name is None))
             me = Obj(EC + "Obj", "self")
             me.attrs.update(name=name, idx=ix, base=base, sympy=base, exponent=1, base_and_exponent=(base, 1),
-                            is_t_amplitude=bool(name and name.startswith("t")), type_as_str="?")
+                            is_t_amplitude=bool(name and name.startswith("t")))
             return dict(self=me)
         res = evaluate(ctx, fn, build, f"Obj.allowed_spin_blocks({key})", extra)
         if kind == "raise":
@@ -799,6 +816,41 @@ def r15h(ctx):
           lambda W, a: a["expr"].terms[0].attrs.update(target=tuple(sorted(W.ix("ja"), key=KEY))))
 
 
+def r15h_itmd(ctx):
+    rule = "R15h"
+    fn = ctx.model.fn("intermediates:RegisteredIntermediate.allowed_spin_blocks")
+
+    def extra(W):
+        def expand_itmd(sx, a, kw):
+            b = {**dict(zip(("self", "indices", "return_sympy", "fully_expand"), a)), **kw}
+            W.log.append(("expand_itmd", b))
+            W.definition = W.expr("definition", [], {"real": True}, None)
+            return W.definition
+
+        def blocks(sx, a, kw):
+            b = {**dict(zip(("expr", "target_idx"), a)), **kw}
+            W.log.append(("allowed_spin_blocks", b))
+            return ("marker",)
+        return {"expand_itmd": expand_itmd, "allowed_spin_blocks": blocks, "expand": lambda sx, a, kw: a[0]}
+
+    def build(W):
+        me = Obj("intermediates:RegisteredIntermediate", "self")
+        me.attrs.update(default_idx="ijab", name="X", order=2)
+        return dict(self=me)
+    res = evaluate(ctx, fn, build, "RegisteredIntermediate.allowed_spin_blocks", extra)
+    ok = len(res) == 1 and res[0][0].kind == "return" and res[0][0].value == ("marker",)
+    if ok:
+        W = res[0][1]
+        ex = [b for k, b in W.log if k == "expand_itmd"]
+        bl = [b for k, b in W.log if k == "allowed_spin_blocks"]
+        ok = len(ex) == 1 and len(bl) == 1 and ex[0].get("indices") == "ijab" and bl[0].get("expr") is W.definition \
+            and bl[0].get("target_idx") == "ijab"
+    ctx.check(rule, fn, ok, "blocks of an intermediate = blocks of its definition on the default indices, targets = default indices",
+              f"RegisteredIntermediate.allowed_spin_blocks is not allowed_spin_blocks(expand_itmd(default_idx), default_idx): "
+              f"{[repr(o)[:200] for o, _ in res][:2]} calls {[(k, {x: (getattr(y, 'name', y)) for x, y in b.items() if x != 'self'}) for k, b in (res[0][1].log if res else [])]}",
+              key="itmd blocks")
+
+
 def run(ctx):
     if ctx.want("R15g"):
         r15g(ctx)
@@ -812,3 +864,4 @@ def run(ctx):
         r15e(ctx)
     if ctx.want("R15h"):
         r15h(ctx)
+        r15h_itmd(ctx)
